@@ -288,5 +288,10 @@ def main(argv, families):
         families[a.pid](ctx)
         return ctx.finish()
     except Inconclusive as e:
+        if ctx.violations:
+            # violations found before a later part of the check became inconclusive are real: report them
+            ctx.notes.append("a later part of the check was inconclusive: %s" % e)
+            print("(a later part of the check was inconclusive: %s)" % e)
+            return ctx.finish()
         print("INCONCLUSIVE property=%s: %s" % (a.pid, e))
         return 2
